@@ -290,7 +290,19 @@ func RunFamily(f Family, o Options) *FamilyReport {
 				// stratified: cases the family marks as always-kept first, a seeded sample of the rest
 				rng.Shuffle(len(tlc), func(i, j int) { tlc[i], tlc[j] = tlc[j], tlc[i] })
 				if kp, ok := f.(interface{ Keep(*Case) bool }); ok {
-					sort.SliceStable(tlc, func(i, j int) bool { return kp.Keep(&tlc[i]) && !kp.Keep(&tlc[j]) })
+					// the family's preferred cases come first, but never take more than a third of the sample
+					var pref, rest []Case
+					for i := range tlc {
+						if kp.Keep(&tlc[i]) {
+							pref = append(pref, tlc[i])
+						} else {
+							rest = append(rest, tlc[i])
+						}
+					}
+					if len(pref) > cp/3 && len(rest) >= cp-cp/3 {
+						pref = pref[:cp/3]
+					}
+					tlc = append(pref, rest...)
 				}
 				tlc = tlc[:cp]
 			} else {
